@@ -570,7 +570,7 @@ func (r *Run) checkResolveFlow(P string) {
 			for _, s := range b.Succs {
 				for _, fc := range af.EdgeFacts(b, s) {
 					if fc.Kind == "cmp" && fc.Op == "==" && fc.B.Op == "const" && fc.B.Name == "nil" && fc.A.Val == ssa.Value(c) {
-						if head != nil && blockReaches(af, s, head, nil) {
+						if head != nil && edgeReaches(af, b, s, head) {
 							okBreak = false
 						}
 					}
